@@ -54,6 +54,13 @@ def generate(tier, rng):
         out.append("DP %s" % hexs(b"\xa1\x00" * k + b"\x00"))
         out.append("DP %s" % hexs(b"\xc1" * k + b"\x00"))
         out.append("DP %s" % hexs(b"\x82\x00" * (k // 2) + b"\x00"))
+    # many empty containers (each costs the display machine several control steps per input byte), and the self-described tag in front
+    for n in (23, 64, 70, 100, 200, 1000):
+        out.append("DP %s" % hexs(head(4, n) + b"\x80" * n))
+        out.append("DP %s" % hexs(b"\x9f" + b"\xa0" * n + b"\xff"))
+        out.append("DP %s" % hexs(head(5, n) + b"\x80\xa0" * n))
+        out.append("DP %s" % hexs(b"".join(b"\x82\x80" for _ in range(n)) + b"\x00"))
+    for body in ("01", "80", "d9d9f701", "6161", "9f01ff"): out.append("DP d9d9f7%s" % body)
     # strings whose content looks like notation
     for s in ['"', '""_', '"_', "'_", "''_", '_', "1e0", "h'00'", ", ", " !!! decoding error: x", "(_ ", "NaN", "-inf", "1.5e-7", "simple(1)", "<f32:1>", "%41"]:
         b = s.encode()
